@@ -31,7 +31,8 @@ const (
 	KeySPRot    = 9 // key an SP rotates to
 	KeyRogue    = 10
 	KeyShort    = 11 // certificate valid only during 2001
-	NumKeys     = 12
+	KeyEnc      = 12 // an SP's encryption key pair (second KeyDescriptor, use="encryption")
+	NumKeys     = 13
 )
 
 var Keys []*KeyPair
